@@ -11,8 +11,10 @@ vars == <<v, s>>
 
 Comp == {0, 1, 2, 3, 4, 15, 16, 17, 100, 254, 255}
 Grid == Comp \X Comp \X Comp
-Alphabet == CASE AlphabetName = "wide" -> {"0", "1", "2", "5", "6", ".", "+", "-", " ", "a"}
-              [] AlphabetName = "mid" -> {"0", "2", "5", "6", ".", "+", "a"}
+\* "~" stands for a character that is neither a digit, a dot nor a sign; the harness concretises it as each of
+\* NUL, line feed, tab, carriage return, no-break space, ideographic space, U+FEFF, '_' and ','
+Alphabet == CASE AlphabetName = "wide" -> {"0", "1", "2", "5", "6", ".", "+", "-", " ", "a", "~"}
+              [] AlphabetName = "mid" -> {"0", "2", "5", "6", ".", "+", "a", "~"}
               [] AlphabetName = "narrow" -> {"0", "3", "5", ".", "+"}
 
 Init == s = <<>> /\ (IF Mode = "grid" THEN v \in Grid ELSE v = <<0, 0, 0>>)
